@@ -4,6 +4,7 @@ CONSTANTS
   StaticCfg <- EvmCfg
   Dev = {"RefundTruncatedDust"}
   Family = "evm"
+  EvmChain = "ethereum"
   MaxLen = 5
   Amts = {101}
   Fees = {3}
